@@ -307,8 +307,9 @@ Inductive reason :=
                    output size of broadcast_to / of an element-wise operation that does not keep the fill along the
                    broadcast axes; never reached by a fill-preserving operation (the branch returns None first) *)
 | ROutOfFamily  (* function outside the operation families of the property (creation, kron, ...) *)
-| RProduct      (* NOT sanctioned: allocates a product of extents that is neither the operand's nor the requested
-                   result's compressed extent — a dense intermediate inside a listed operation family *).
+| RProduct      (* NOT sanctioned: allocates — or, for np.broadcast_to of a scalar operand, addresses — a product of
+                   extents that is neither the operand's nor the requested result's compressed extent: a dense
+                   intermediate inside a listed operation family *).
 
 Record sanction := mkSan { sa_file : string; sa_func : string; sa_callee : string; sa_args : string;
                            sa_occ : nat; sa_why : reason }.
@@ -328,15 +329,18 @@ Definition sanctioned_sites : list sanction := [
   mkSan "_umath.py" "_get_expanded_coords_data" "np.empty" "(len(broadcast_shape), all_idx.shape[1]), dtype=np.intp" 1 RBroadcast;
   mkSan "_umath.py" "_get_expanded_coords_data" "np.empty" "(0, all_idx.shape[1]), dtype=np.intp" 1 RBroadcast;
   mkSan "_umath.py" "_get_expanded_coords_data" "np.repeat" "data, reduce(operator.mul, broadcast_shape, 1)" 1 RBroadcast;
+  mkSan "_umath.py" "_cartesian_product" "np.broadcast_arrays" "*broadcastable" 1 RBroadcast;
   mkSan "_umath.py" "_cartesian_product" "np.empty" "rows * cols, dtype=dtype" 1 RBroadcast;
   mkSan "_umath.py" "_get_matching_coords" "np.zeros" "len(coords), dtype=np.uint8" 1 RNdim;
   mkSan "_umath.py" "_Elemwise.__init__" ".todense" "arg | " 1 RDensify;
   mkSan "_umath.py" "_Elemwise.get_result" ".todense" "a | " 1 RDensify;
   mkSan "_umath.py" "_Elemwise.get_result" "np.empty" "(0, len(self.shape)), dtype=np.intp" 1 RNdim;
   mkSan "_umath.py" "_Elemwise.get_result" "np.empty" "(0, len(self.shape)), dtype=np.intp" 2 RNdim;
+  mkSan "_umath.py" "_Elemwise._get_func_coords_data" "np.broadcast_arrays" "*func_args" 1 RNnz;
   mkSan "_umath.py" "_Elemwise._get_func_coords_data" "np.empty" "func_args[0].shape, dtype=self.dtype" 1 RNnz;
   mkSan "_umath.py" "_Elemwise._get_func_coords_data" "np.ones" "func_array.nnz, dtype=np.bool_" 1 RNnz;
   mkSan "_umath.py" "_Elemwise._match_coo" "np.arange" "matched_arrays[0].nnz" 1 RNnz;
+  mkSan "_coo/core.py" "COO.__init__" "np.broadcast_to" "self.data, self.coords.shape[1]" 1 RNnz;
   mkSan "_coo/core.py" "COO.__init__" "np.zeros" "(len(shape) if isinstance(shape, Iterable) else 1, 0), dtype=np.intp" 1 RNdim;
   mkSan "_coo/core.py" "COO.todense" "np.full" "self.shape, self.fill_value, self.dtype" 1 RDensify;
   mkSan "_coo/core.py" "COO.from_scipy_sparse" "np.empty" "(2, x.nnz), dtype=x.row.dtype" 1 RNnz;
@@ -399,6 +403,7 @@ Definition sanctioned_sites : list sanction := [
   mkSan "_common.py" "eye" "np.arange" "data_length, dtype=np.intp" 3 ROutOfFamily;
   mkSan "_common.py" "full" "np.empty" "(len(shape), 0), dtype=np.intp" 1 RNdim;
   mkSan "_common.py" "asnumpy" ".todense" "a | " 1 RDensify;
+  mkSan "_common.py" "pad" "np.broadcast_to" "pad_width, (len(array.shape), 2)" 1 RNdim;
   mkSan "_compressed/compressed.py" "_from_coo" "np.arange" "len(x.shape)" 1 RNdim;
   mkSan "_compressed/compressed.py" "_from_coo" "np.empty" "(2, x.nnz), dtype=idx_dtype" 1 RNnz;
   mkSan "_compressed/compressed.py" "_from_coo" "np.empty" "row_size + 1, dtype=idx_dtype" 1 RIndptr;
@@ -441,10 +446,11 @@ Definition sanctioned_sites : list sanction := [
   mkSan "_compressed/indexing.py" "getitem" "np.bincount" "uncompressed, minlength=shape[0]" 1 RIndptr].
 
 Definition product_sites : list sanction := [
+  mkSan "_umath.py" "_Elemwise._get_func_coords_data" "np.broadcast_to" "arg, matched_broadcast_shape" 1 RProduct;
   mkSan "_compressed/compressed.py" "GCXS._reduce_calc" "np.arange" "x._compressed_shape[0], dtype=self.indptr.dtype" 1 RProduct;
   mkSan "_compressed/convert.py" "convert_to_flat" ".repeat" "increments[-1] | operations" 1 RProduct].
 
-
 Definition sanctioned (s : dsite) : bool := sanctioned_in sanctioned_sites s.
-(* the two sites where a listed operation family allocates a product of extents (findings G1, G2) *)
+(* the sites where a listed operation family allocates (G1, G2) or addresses (E1: a zero-stride view NumPy refuses
+   from 2^60 elements on) a product of extents *)
 Definition product_site (s : dsite) : bool := sanctioned_in product_sites s.
